@@ -451,7 +451,8 @@ decodechar(const char *src, uint_least32_t *chr, bool *hexoct, const char *desc,
 		case 'v':  c = '\v'; ++s; break;
 		case 'x':
 			++s;
-			assert(isxdigit(*s));
+			if (!isxdigit(*s))
+				error(loc, "%s contains an invalid hexadecimal escape sequence", desc);
 			c = 0;
 			do {
 				if (c > 0xfffffff)
@@ -462,7 +463,8 @@ decodechar(const char *src, uint_least32_t *chr, bool *hexoct, const char *desc,
 				*hexoct = true;
 			break;
 		default:
-			assert(isodigit(*s));
+			if (!isodigit(*s))
+				error(loc, "%s contains an invalid escape sequence", desc);
 			c = 0;
 			i = 0;
 			do c = c * 8 + (*s++ - '0');
